@@ -134,7 +134,7 @@ Definition format16 (can : N -> bool) (xml11 : bool) (m : emode) (u : unrep) (s 
 (** * the transcoders behind fXCoder (C05 models) and handleUnEscapedChars *)
 
 Inductive encoding : Type := EUtf8 | ELatin1 | EAscii | EWin1252 | EUtf16.
-Inductive ferr : Type := F_Unrepresentable | F_Hang | F_Other | F_BadSrcSeq.
+Inductive ferr : Type := F_Unrepresentable | F_Hang | F_Other | F_BadSrcSeq | F_BadTrailingSurrogate.
 
 Definition enc_can (e : encoding) (c : N) : bool :=
   match e with
@@ -154,7 +154,11 @@ Fixpoint id_to (lim : N) (s : list N) : res (list N) ferr :=
   end.
 
 Definition ferr_of (e : xerr) : ferr :=
-  match e with E_Trans_Unrepresentable => F_Unrepresentable | E_Fuel => F_Hang | _ => F_Other end.
+  match e with
+  | E_Trans_Unrepresentable => F_Unrepresentable | E_Fuel => F_Hang
+  | E_Trans_BadSrcSeq => F_BadSrcSeq | E_Trans_BadTrailingSurrogate => F_BadTrailingSurrogate   (* unpaired surrogates (C05 F7) *)
+  | _ => F_Other
+  end.
 
 (** handleUnEscapedChars over the UTF-8 transcoder: chunks of kTmpBufSize units into a buffer of kTmpBufSize
     bytes until everything is eaten.  As found, a call that eats nothing repeated forever (the fuel runs out =
